@@ -354,6 +354,22 @@ def generic_specs(draw, char=False, routes=ROUTES, **opts):
     o.update(opts)
     fs = draw(S.filespecs(**o))
     fs['route'] = draw(st.sampled_from(list(routes)))
+    # one more 1-D coordinate variable in a third of the files (the shared
+    # strategy adds one per dimension with probability 1/4 only), so that
+    # interpDimension / coordinate-sized slicing are well represented
+    have = set(v['name'] for v in fs['vars'])
+    cand = [d for d in fs['dims'] if d[0] not in have and d[1] >= 2]
+    if cand and draw(st.integers(0, 2)) == 0:
+        d = draw(st.sampled_from(cand))
+        steps = draw(st.lists(st.integers(1, 3), min_size=d[1],
+                              max_size=d[1]))
+        sign = draw(st.sampled_from([1, 1, -1]))
+        start = draw(st.integers(-9, 9))
+        vals = [start + sign * int(x) for x in np.cumsum(steps)]
+        fs['vars'].append(dict(name=d[0], dims=[d[0]],
+                               dtype=draw(st.sampled_from(['f8', 'f4'])),
+                               data=vals, mask=None, fill=None, attrs={},
+                               coord=True))
     return fs
 
 
